@@ -9,7 +9,7 @@
 
 namespace sim {
 
-extern int g_sut_depth;          // >0: allocations belong to the system under test
+extern thread_local int g_sut_depth;   // >0: allocations made by this thread belong to the system under test
 
 struct SutScope {
    SutScope() { ++g_sut_depth; }
@@ -55,6 +55,7 @@ namespace heap {
    bool exhausted();                       // arena ran out (harness budget, not a property verdict)
 
    bool in_arena(const void*);
+   bool is_static(const void*);            // address lies inside the executable image (constants of the library, harness globals)
    int  owner_of(const void*);             // -1 if not in the arena
    bool is_live_block_interior(const void*); // address lies inside the user area of a live block
 
@@ -65,6 +66,7 @@ namespace heap {
    size_t live_blocks(LiveInfo* out, size_t max, int owner = -1);
 
    const Stats& stats();
+   uint64_t serial();                      // serial number of the most recent SUT allocation (monotonic within a run)
 
    // Harness-driven arena traffic that moves addresses around ("noise").
    void* noise_alloc(size_t n);
